@@ -246,7 +246,7 @@ func main() {
 			out := filepath.Join(bdir, fmt.Sprintf("frag%d.json", i))
 			env := goEnv("VERIF_PROP="+id, "VERIF_TIER="+tier, fmt.Sprintf("VERIF_SHARD=%d/%d", i, nshards),
 				fmt.Sprintf("VERIF_SEED=%d", seed), "VERIF_OUT="+out, "VERIF_TMP="+wdir, "VERIF_BIN="+plain,
-				fmt.Sprintf("VERIF_DEADLINE_S=%g", deadline), "GOMAXPROCS=2", "VERIF_ONLY="+os.Getenv("VERIF_ONLY"), "VERIF_C05_INPUT="+os.Getenv("VERIF_C05_INPUT"), "HOME="+wdir, "VERIF_REPO_DIR="+repo)
+				fmt.Sprintf("VERIF_DEADLINE_S=%g", deadline), "GOMAXPROCS=2", "VERIF_ONLY="+os.Getenv("VERIF_ONLY"), "VERIF_C05_INPUT="+os.Getenv("VERIF_C05_INPUT"), "VERIF_MEMDEBUG="+os.Getenv("VERIF_MEMDEBUG"), "HOME="+wdir, "VERIF_REPO_DIR="+repo)
 			if replayFile != "" {
 				abs, _ := filepath.Abs(replayFile)
 				env = append(env, "VERIF_REPLAY="+abs)
